@@ -26,7 +26,7 @@ def gen_front(rng, max_n=24, objs=(2, 2, 3, 3, 4, 5), styles=None):
     """non-dominated fronts: continuous simplex, grid-valued, with constant objectives, tied extremes, duplicates"""
     for _ in range(400):
         M = rng.choice(objs); N = rng.randint(1, max_n)
-        style = rng.choice(styles or ["simplex", "simplex", "grid", "gridfront", "gridfront", "perm", "const", "dups", "tiedext", "tinyrange", "hugerange", "curve"])
+        style = rng.choice(styles or ["simplex", "simplex", "grid", "gridfront", "gridfront", "perm", "const", "dups", "tiedext", "tinyrange", "hugerange", "curve", "tinyscale"])
         tied = style == "tiedfront"
         if tied:
             style = "gridfront"
@@ -55,6 +55,10 @@ def gen_front(rng, max_n=24, objs=(2, 2, 3, 3, 4, 5), styles=None):
             F = np.array([[g(t) for g in gs[:M]] for t in ts]) if M >= 2 else np.array([[t] for t in ts])
             if len(np.unique(F, axis=0)) < N:
                 continue
+        elif style == "tinyscale":
+            # an ordinary continuous front expressed in very small units (the metrics are defined on range-normalised objectives)
+            F = np.array([[rng.random() for _ in range(M)] for _ in range(N)]); F = F / F.sum(axis=1, keepdims=True)
+            F = F * 2.0 ** rng.choice([-58, -64, -70, -120])
         elif style == "simplex":
             F = np.array([[rng.random() for _ in range(M)] for _ in range(N)]); F = F / F.sum(axis=1, keepdims=True)
         elif style == "grid":
